@@ -755,16 +755,17 @@ fn read_code<C: CodeVisitor>(
 
 					let frame_data = StackMapData::Full { locals, stack };
 
-					let label = labels.get_or_create(offset)?;
-
-					frames.push((label, frame_data));
+					frames.push((offset, frame_data));
 				}
 
-				// The format of the StackMap attribute doesn't guarantee ordered elements.
-				frames.sort_by_key(|&(label, _)| label);
+				// The format of the StackMap attribute doesn't guarantee ordered elements: order them by bytecode offset
+				// (label ids only reflect the order in which labels were created).
+				frames.sort_by_key(|&(offset, _)| offset);
 
 				// Later on, we want to quickly remove the first elements. A VecDeque is faster for this.
-				let frames: std::collections::VecDeque<_> = frames.into();
+				let frames = frames.into_iter()
+					.map(|(offset, frame_data)| Ok((labels.get_or_create(offset)?, frame_data)))
+					.collect::<Result<std::collections::VecDeque<_>>>()?;
 
 				stack_map_frame.insert_if_empty(frames).context("only one StackMap attribute is allowed")?;
 			},
